@@ -236,6 +236,7 @@ func genC18(r *Rng, tier string, o *Out) {
 	for i := 0; i < nl; i++ {
 		c18Large(r, i, o)
 	}
+	genRingPk(r, tier, o)
 }
 
 func c18Hash(d []byte) uint32 {
